@@ -47,9 +47,10 @@ type asmReplayer struct {
 	c            *Ctx
 	u            *Universe
 	pool         *inprocPool
-	root         string // sandbox CRS root shared by cases that need no files
-	budget       int64  // maximum number of cases to replay (sampling), 0 = all
-	cliEvery     int64  // every n-th replayed case additionally goes through the CLI
+	root         string              // sandbox CRS root shared by cases that need no files
+	budget       int64               // maximum number of cases to replay (sampling), 0 = all
+	cliEvery     int64               // every n-th replayed case additionally goes through the CLI
+	cliAlways    func(*AsmCase) bool // cases that always go through the CLI as well
 	seen         int64
 	replayed     int64
 	cliRuns      int64
@@ -432,7 +433,7 @@ func (r *asmReplayer) replay(cs AsmCase) error {
 		r.c.addSample(map[string]any{"program": cs.Lines, "flags": cs.Flags, "expect": cs.Expect, "expected_language": cs.Lang,
 			"hand_inlined": cs.Same, "real_output": obs.Out, "real_failure": obs.Fail})
 	}
-	if verdict != "" || (r.cliEvery > 0 && n%r.cliEvery == 0) {
+	if verdict != "" || (r.cliEvery > 0 && n%r.cliEvery == 0) || (r.cliAlways != nil && r.cliAlways(&cs)) {
 		// the CLI binary is the reference observation
 		cv, cobs, err := r.verdictFor(&cs, root, true)
 		if err != nil {
